@@ -66,16 +66,22 @@ def run(tier, seed):
     job_defs["fresh2_plain"] = ["plain@I2"]
     for k, h in enumerate(hs):
         job_defs["h%03d" % k] = h
+    # the same through geqdsk files: every build of a history reads the ONE file the user works with, overwritten with the input of that build
+    # (seed C14_geqdsk_cache_by_filename: parsed files cached by name); names g*: lifecycle_build's via = "gfile"
+    ghs = [["plain"], ["plain@I2"], ["plain", "M", "plain@I2"], ["plain@I2", "M", "plain"], ["revbt", "plain@I2"], ["plain@I2", "plain@I2"], ["plain@I2", "revbt"]]
+    job_defs.update({"gfresh_plain": ["plain"], "gfresh_revbt": ["revbt"], "gfresh2_plain": ["plain@I2"]})
+    for k, h in enumerate(ghs):
+        job_defs["g%03d" % k] = h
 
     def one(name, hist):
         jd = os.path.join(d, name)
         os.makedirs(jd, exist_ok=True)
         with open(os.path.join(jd, "job.json"), "w") as fh:
-            json.dump({"optsets": OPTSETS, "base": BASE, "history": hist}, fh)
+            json.dump({"optsets": OPTSETS, "base": BASE, "history": hist, "via": "gfile" if name.startswith("g") else "arrays"}, fh)
         rc, out, err = run_group([PY, "-B", os.path.join(VERIF, "harness/drivers/lifecycle_build.py"), os.path.join(jd, "job.json"), jd], timeout=900, env=repo_env())
         st = os.path.join(jd, "status.json")
         if not os.path.exists(st):
-            if name.startswith("fresh"):
+            if name.startswith("fresh") or name.startswith("gfresh"):
                 raise MachineryError("lifecycle_build gave no status for %s rc=%s\n%s" % (name, rc, (out + err)[-1500:]))
             # a history that kills or hangs the interpreter is a finding about the history, not about the harness
             return name, {"events": [], "fatal": "no status written (rc=%s): %s" % (rc, (out + err)[-300:])}
@@ -123,9 +129,20 @@ def run(tier, seed):
         v.fail_machinery("a fresh reference build failed: %s %s %s" % (fresh, {n: results["fresh_" + n].get("fatal") for n in OPTSETS}, results["fresh2_plain"].get("fatal")))
         shutil.rmtree(d, ignore_errors=True)
         return v
+    def gdig(n):
+        ev = results[n]["events"]
+        return ev[-1]["digest"] if ev and ev[-1]["ev"] == "Write" else 0
+
+    gfresh = {"I1": dict({n: 0 for n in OPTSETS}, plain=gdig("gfresh_plain"), revbt=gdig("gfresh_revbt")), "I2": dict({n: 0 for n in OPTSETS}, plain=gdig("gfresh2_plain"))}
+    if 0 in (gfresh["I1"]["plain"], gfresh["I1"]["revbt"], gfresh["I2"]["plain"]):
+        v.fail_machinery("a fresh reference build through a geqdsk file failed: %s %s" % (gfresh, {n: results[n].get("fatal") or results[n].get("exc") for n in ("gfresh_plain", "gfresh_revbt", "gfresh2_plain")}))
+        shutil.rmtree(d, ignore_errors=True)
+        return v
     traces = []
     for n, st in sorted(results.items()):
-        if n.startswith("h") and (st.get("fatal") or not st["events"] or st["events"][-1]["ev"] != "Write"):
+        if n.startswith("gfresh") or n.startswith("fresh"):
+            continue
+        if (n.startswith("h") or n.startswith("g")) and (st.get("fatal") or not st["events"] or st["events"][-1]["ev"] != "Write"):
             # every build in these histories succeeds in a fresh interpreter, so a history that does not end in a written file broke
             # because of what happened before in the same interpreter
             v.add_case("history %s" % job_defs[n])
@@ -133,8 +150,9 @@ def run(tier, seed):
                         "history %s does not end in a written grid although each of its builds succeeds on its own: %s" % (job_defs[n], st.get("fatal") or st.get("exc") or [e["ev"] for e in st["events"]]),
                         {"history": job_defs[n], "status": {k: st[k] for k in st if k != "events"}})
             continue
-        if n.startswith("h"):
-            traces.append(pad({"id": len(traces) + 1, "kind": "history", "name": n, "events": st["events"], "fresh": fresh, "history": job_defs[n]}))
+        if n.startswith("h") or n.startswith("g"):
+            traces.append(pad({"id": len(traces) + 1, "kind": "history", "name": n, "events": st["events"], "fresh": gfresh if n.startswith("g") else fresh,
+                               "history": job_defs[n] + (["via geqdsk file"] if n.startswith("g") else [])}))
     for n in reps:
         traces.append(pad({"id": len(traces) + 1, "kind": "repeat", "name": n, "digests": results["rep:" + n]}))
     rt = results["rt"]
